@@ -11,6 +11,8 @@ import (
 	"go/token"
 	"go/types"
 	"net/textproto"
+	"os"
+	"runtime/debug"
 	"strconv"
 	"strings"
 )
@@ -19,7 +21,12 @@ type specErr struct{ msg string }
 
 func (e specErr) Error() string { return e.msg }
 
-func fail(format string, a ...any) { panic(specErr{fmt.Sprintf(format, a...)}) }
+func fail(format string, a ...any) {
+	if os.Getenv("GOVC_DEBUG") != "" {
+		fmt.Fprintf(os.Stderr, "specErr: "+format+"\n%s\n", append(a, string(debug.Stack()))...)
+	}
+	panic(specErr{fmt.Sprintf(format, a...)})
+}
 
 // ---- preprocessing ---------------------------------------------------------
 
@@ -366,7 +373,29 @@ func (x *Ex) typeExpr(e ast.Expr) (*Sort, types.Type, bool) {
 		if ok1 && ok2 && kt != nil && vt != nil {
 			return sRef, types.NewMap(kt, vt), true
 		}
+	case *ast.IndexExpr:
+		// instantiated generic type with one type argument, e.g. iter.Seq[string]
+		if gt := x.genericNamed(v.X); gt != nil {
+			if _, at, ok := x.typeExpr(v.Index); ok && at != nil {
+				if inst, err := types.Instantiate(nil, gt, []types.Type{at}, false); err == nil {
+					return x.enc.sortOf(inst), inst, true
+				}
+			}
+		}
 	case *ast.IndexListExpr:
+		if gt := x.genericNamed(v.X); gt != nil {
+			var targs []types.Type
+			for _, ie := range v.Indices {
+				if _, at, ok := x.typeExpr(ie); ok && at != nil {
+					targs = append(targs, at)
+				}
+			}
+			if len(targs) == len(v.Indices) {
+				if inst, err := types.Instantiate(nil, gt, targs, false); err == nil {
+					return x.enc.sortOf(inst), inst, true
+				}
+			}
+		}
 		// Arr[K, V]: specification-level (SMT) array
 		if id, ok := v.X.(*ast.Ident); ok && id.Name == "Arr" && len(v.Indices) == 2 {
 			ks, _, ok1 := x.typeExpr(v.Indices[0])
@@ -687,11 +716,44 @@ func (x *Ex) binary(v *ast.BinaryExpr, want *Sort) *T {
 	return nil
 }
 
-func pick(c bool, a, b string) string {
+func pick[T any](c bool, a, b T) T {
 	if c {
 		return a
 	}
 	return b
+}
+
+// seqElemType: element type T of an iter.Seq[T] (which of the two for iter.Seq2[K,V]).
+func seqElemType(t types.Type, which int) types.Type {
+	if t == nil {
+		return nil
+	}
+	sig, ok := types.Unalias(t).Underlying().(*types.Signature)
+	if !ok || sig.Params().Len() != 1 {
+		return nil
+	}
+	ysig, ok := sig.Params().At(0).Type().Underlying().(*types.Signature)
+	if !ok || ysig.Params().Len() <= which {
+		return nil
+	}
+	return ysig.Params().At(which).Type()
+}
+
+// ghost view of an iterator value: the sequence of values it yields when run to completion
+func (e *Enc) seqLen(q *T) *T {
+	e.decl("seqLen", "(declare-fun seqLen (Fn) (_ BitVec 64))")
+	e.decl("seqLen-nonneg", "(assert (forall ((q Fn)) (! (and (bvsle #x0000000000000000 (seqLen q)) (bvult (seqLen q) #x4000000000000000)) :pattern ((seqLen q)))))")
+	return mk(sapp("seqLen", q.S), sI64)
+}
+
+func (e *Enc) seqAt(q, k *T, et types.Type, second bool) *T {
+	so := e.sortOf(et)
+	name := "seqAt$" + so.KeyS()
+	if second {
+		name = "seqAt2$" + so.KeyS()
+	}
+	e.decl(name, fmt.Sprintf("(declare-fun %s (Fn (_ BitVec 64)) %s)", name, so.SMT()))
+	return mk(sapp(name, q.S, k.S), so).withGo(et)
 }
 
 func eqTerm(a, b *T) *T {
@@ -1020,6 +1082,19 @@ func (x *Ex) call(v *ast.CallExpr, want *Sort) *T {
 			ref = sapp("sl_arr", a.S)
 		}
 		return mk(sapp("and", sapp(">=", ref, oldNext.S), sapp("<", ref, x.cur.next().S)), sBool)
+	case "seqLen":
+		argN(1)
+		q := x.tr(v.Args[0], sFn)
+		return x.enc.seqLen(q)
+	case "seqAt", "seqAt2":
+		argN(2)
+		q := x.tr(v.Args[0], sFn)
+		k := x.tr(v.Args[1], sI64)
+		et := seqElemType(q.GoT, pick(fn.Name == "seqAt2", 1, 0))
+		if et == nil {
+			fail("%s: cannot determine the element type of the iterator %s", fn.Name, q.S)
+		}
+		return x.enc.seqAt(q, k, et, fn.Name == "seqAt2")
 	case "sameArray":
 		argN(2)
 		a := x.tr(v.Args[0], nil)
@@ -1281,4 +1356,36 @@ func (e *Enc) canonTerm(a *T) *T {
 	e.decl("canon-idem", "(assert (forall ((s Str)) (! (= (canon (canon s)) (canon s)) :pattern ((canon s)))))")
 	e.uses["http.CanonicalHeaderKey on non-literal names is an uninterpreted idempotent function"] = true
 	return mk(sapp("canon", a.S), sStr)
+}
+
+// genericNamed resolves pkg.Name (or Name) to a generic named type.
+func (x *Ex) genericNamed(e ast.Expr) types.Type {
+	var obj types.Object
+	switch v := e.(type) {
+	case *ast.SelectorExpr:
+		if id, ok := v.X.(*ast.Ident); ok {
+			if p := x.w.pkgByName(id.Name); p != nil {
+				obj = p.Scope().Lookup(v.Sel.Name)
+			}
+		}
+	case *ast.Ident:
+		if x.pkg != nil {
+			obj = x.pkg.Scope().Lookup(v.Name)
+		}
+	}
+	tn, ok := obj.(*types.TypeName)
+	if !ok {
+		return nil
+	}
+	switch t := tn.Type().(type) {
+	case *types.Named:
+		if t.TypeParams().Len() > 0 {
+			return t
+		}
+	case *types.Alias:
+		if t.TypeParams().Len() > 0 {
+			return t
+		}
+	}
+	return nil
 }
